@@ -76,6 +76,11 @@ CHECKS = {
                      "segment and closed; one filled path per component, one outline per curve, background iff unbounded, Empty/Whole rules; control points unchanged. Replays "
                      "run on real matplotlib (Agg) objects.",
                 technique="symbolic execution of the real code (SYMX) with recorder stubs + z3 path exploration; structural identity of recorded paths"),
+    "C08": dict(level="model_checking", design="4/C08",
+                text="R = op(A, B(t)) under SYMX for all operators, copies, constructors and queries, every short-cut branch reached by path exploration; then one of {R, A, B} is "
+                     "mutated in place with symbolic parameters and every control-point coordinate of the others must stay the identical polynomial (any shared Point2D/segment/"
+                     "curve shows as a dependence on the mutation parameters); operands denote the same region after the call (z3, query point free).",
+                technique="symbolic execution of the real code (SYMX) with symbolic in-place mutation; structural independence + z3 region obligations per path cell"),
 }
 NA = {}
 
